@@ -47,6 +47,11 @@ def cases(tier, seed, i, n):
                 for rep in range(1 if tier == 'quick' else 3):
                     yield dict(p=p, r=r, t=t, c=c, h=h, hseed=rnd.randrange(1 << 30))
         yield gen.mark('full grid poll x ping_rate x ping_timeout x close_timeout (3x5x5x4)')
+        # a clock that reads round decimal values (epoch 0): multiples of the ping rate and poll instants then
+        # coincide up to the last bit, which is where "next multiple in the future" computed in floats can be wrong
+        for p, r in ((0.1, 0.3), (0.2, 0.3), (0.1, 0.7), (0.25, 0.7), (0.1, 0.01), (0.5, 1.5), (0.1, 0.6), (1.0, 3.0)):
+            for h in ('pong-prompt', 'silent'):
+                yield dict(p=p, r=r, t=None, c=None, h=h, hseed=rnd.randrange(1 << 30), round_clock=True)
         for _ in range(4000 if tier == 'quick' else 1500000):
             yield dict(p=rnd.choice(POLLS + (0.25, 1.0, 3.0, 0.1, 0.3)), r=rnd.choice(RATES + (0.5, 2.0, 0.3, 0.1, 1.1)),
                        t=rnd.choice(PTIMEOUTS + (0.4, 2.0)), c=rnd.choice(CTIMEOUTS + (0.5, 2.0)),
@@ -117,7 +122,8 @@ def build(case):
 def run_case(case, acc):
     p, r, t, c = case['p'], case['r'], case['t'], case['c']
     steps, table, horizon = build(case)
-    w = H.World(H.hs_server(steps), horizon=horizon, stop_at=horizon, budget=60000)
+    w = H.World(H.hs_server(steps), horizon=horizon, stop_at=horizon, budget=60000,
+                clock_base=0.0 if case.get('round_clock') else None, snap=9 if case.get('round_clock') else None)
     run = H.drive(w, connect_kwargs=dict(poll=p, ping_rate=r, ping_timeout=t, close_timeout=c), policy=H.TablePolicy(table))
     key, detail, fired = judge(case, run, w, acc, horizon)
     if key is None and case['hseed'] % 3 == 0:
@@ -214,6 +220,20 @@ def judge(case, run, w, acc, horizon):
                 detail['missing_after_multiple'] = m * r
                 return 'auto-ping-missing-within-p-after-multiple-of-rate', detail, fired
             m += 1
+        # attribution-free version of "never twice within one period": a Ping that falls exactly on a multiple may be
+        # the late Ping of the period that ends there or the early Ping of the one that starts there.  Whatever the
+        # attribution, the closed span [k*r, m*r] holds at most (m - k) + 2 Pings, and [0, m*r] at most m + 1
+        # (nothing is late at Ready).
+        mmax = int(open_end / r + EPS)
+        for k in range(0, mmax):
+            for m in range(k + 1, min(mmax, k + 40) + 1):
+                inside = [x for x in pings if k * r - EPS <= x <= m * r + EPS]
+                bound = (m - k) + (2 if k else 1)
+                if len(inside) > bound:
+                    detail['span'] = (k * r, m * r, bound, [round(x, 9) for x in inside][:30])
+                    return 'two-auto-pings-within-one-period:more-pings-than-periods', detail, fired
+            if k >= 3:
+                break
         for a, b in zip(pings, pings[1:]):
             # two pings strictly inside the same open period (k*r, (k+1)*r)?
             ka = int(a / r + EPS)
